@@ -250,6 +250,7 @@ partial def gatePanics (inLoop : Bool) : Gate → List Nat → List String
     | _ => ["ctrl-of-nothing"]
   | .kron a b, bits => gatePanics inLoop a (bits.take a.nbits) ++ gatePanics inLoop b (bits.drop a.nbits)
   | .comp _ _ ops, bits => subsPanics inLoop ops bits
+  | .loop 0 _, _ => []     -- zero iterations: nothing is drawn, the body is never visited
   | .loop k body, bits =>
     (if k ≥ 3 && bits.isEmpty then ["empty-loop"] else []) ++
     (if k ≥ 3 && inLoop then ["nested-loop"] else []) ++ gatePanics (inLoop || k ≥ 3) body bits
@@ -268,6 +269,18 @@ def opPanics (nq : Nat) : Op → List String
   | .barrier qs => if qs.isEmpty then ["empty-barrier"] else []
   | _ => []
 
+/-- Index of the operation at which the MODEL's export panics (attribution of a panic to an operation;
+`none`: the model does not panic inside an operation, e.g. it panics while printing the loop header). -/
+def panicOp (c : Circ) : Option Nat :=
+  let rec go : List Op → Nat → St → Option Nat
+    | [], _, _ => none
+    | op :: rest, k, s =>
+      match opLatex c.nq op s with
+      | .ok s' => go rest (k + 1) { s' with cur := s'.cur + 1 }
+      | .panic => some k
+      | .err _ => none
+  go c.ops 0 (St.new c.nq c.nc)
+
 def oneLine (s : String) : String := (s.replace "\n" " ").replace "\t" " "
 
 def specCheck (line : String) : String :=
@@ -284,7 +297,13 @@ def specCheck (line : String) : String :=
         let malformed := c.ops.any (Op.malformed c.nq)
         let a := ans.trimAscii.toString
         if a = "panic" then
-          match (c.ops.flatMap (opPanics c.nq)).head? with
+          -- the features of the operation that panics (per the model), else of any operation
+          let feats := match (panicOp c).bind (c.ops[·]?) with
+            | some op => match opPanics c.nq op with
+              | [] => c.ops.flatMap (opPanics c.nq)
+              | fs => fs
+            | none => c.ops.flatMap (opPanics c.nq)
+          match feats.head? with
           | some f => s!"fail panic:{f} the export panics instead of drawing or returning an error"
           | none => "fail panic:unexplained the export panics"
         else if a.startsWith "err " then
@@ -296,13 +315,42 @@ def specCheck (line : String) : String :=
             match readDoc (decode (a.drop 3).toString) with
             | none => "fail unreadable the text is not a qcircuit grid over the known symbols"
             | some d =>
-              match check c d with
+              -- attribution only: which operation drew a cell, according to the model's ghost provenance
+              let cols : List Column := match exportSt c with
+                | .ok s => s.rcols.reverse
+                | _ => []
+              let hint (col row : Nat) : Option Nat :=
+                match (cols[col]?).bind (·[row]?) with
+                | some (some cell) => some cell.prov
+                | _ => none
+              match check c d hint with
               | .ok _ => "ok"
               | .error f =>
-                let shape := match f.op with
+                -- attribution. Connector / span failures: the operation that drew the cell, by the model's
+                -- provenance (exact). Matching failures (symbol, order, missing, unconnected, extra, loop-brace)
+                -- at operation k: the left-to-right matching is unreliable once an EARLIER operation of a
+                -- defective shape has been met (its stages may silently match symbols of later operations, or
+                -- leave symbols behind), so the first operation of a known defective shape at or before k is
+                -- blamed, unless k itself has a defective shape; k itself if there is none.
+                let structural := f.kind = "connector" || f.kind = "span"
+                let defectShapes := ["multistage-in-range", "kron-in-range", "empty-loop-body"]
+                let shapeOf (j : Nat) : String := (c.ops[j]?.map opShape).getD "plain"
+                let firstOf (shapes : List String) (upto : Nat) : Option Nat :=
+                  (List.range (min (upto + 1) c.ops.length)).find? fun j => shapes.contains (shapeOf j)
+                -- which defective shape can derail the matching of LATER operations: a Composite/Loop in a
+                -- range (symbols lost or merged); for brace failures an empty loop body (misplaced brace).
+                -- A Kron in a range draws all its symbols and fails, if at all, at itself.
+                let pref := if f.kind = "loop-brace" || f.kind = "loop" then ["empty-loop-body", "multistage-in-range"]
+                            else ["multistage-in-range"]
+                let blamed : Option Nat := match f.op with
+                  | some k =>
+                    if structural || defectShapes.contains (shapeOf k) then some k
+                    else some ((firstOf pref k).getD k)
+                  | none => (firstOf pref c.ops.length).orElse fun _ => firstOf defectShapes c.ops.length
+                let shape := match blamed with
                   | some k => (c.ops[k]?.map opShape).getD "?"
                   | none => "?"
-                s!"fail {f.kind}:{shape} op={repr f.op} {oneLine f.detail}"
+                s!"fail {f.kind}:{shape} op={repr blamed} {oneLine f.detail}"
         else "fail bad-answer"
   | _ => "fail bad-line"
 
